@@ -159,7 +159,19 @@ def out_model(chk, ser):
 
     m = chk.repo.mod(SER)
     me = Record(ser=ser, out=[])
-    intr = {'helper': Record(string=lambda v: '"' + v + '"', uri=lambda v: 'url(' + v + ')')}
+    hm = chk.repo.mod('cssutils/helper.py')
+
+    def helper_fn(name):
+        f = hm.get(name)
+
+        def run(v):
+            res = Evaluator(f, module=hm).run(**{f.args.args[0].arg: v})
+            if isinstance(res, Raised):
+                raise AnalysisError(f'helper.{name}: {res!r}')
+            return res
+        return run
+
+    intr = {'helper': Record(string=helper_fn('string'), uri=helper_fn('uri'))}
 
     def call(name, *a, **k):
         fn = m.get(f'Out.{name}')
@@ -178,7 +190,7 @@ def out_model(chk, ser):
 
 def r06g(chk, rid='R06.g'):
     chk.rule(rid, 'spacer preferences change white space only where it carries no meaning, decided by evaluation: CSSSerializer.do_css_Selector and the Out class it writes through (append, value, _remove_last_if_S - all evaluated from the source) are run for selectors with descendant, child and sibling combinators in front of type, class and attribute selectors, under every combination of an empty or one-space spacer and selectorCombinatorSpacer: the descendant combinator is always written as white space, the other combinators are enclosed in selectorCombinatorSpacer, nothing else changes')
-    chk.assume('R06.g: Out.append / value / _remove_last_if_S are evaluated from the source; helper.string and helper.uri are stubs (no strings or URLs occur in the model selectors)')
+    chk.assume('R06.g: Out.append / value / _remove_last_if_S are evaluated from the source; helper.string and helper.uri likewise')
     import itertools
 
     from sa.absint import Evaluator, Raised, Record
